@@ -477,6 +477,14 @@ fn d2b_attribution_nest2_small() {
 	kani::cover!(w.max_depth_seen.get() == 2 && w.ser_failed.get(), "D2b serializer fault two levels down");
 }
 
+/// D3s: the quick-tier totality variant: all default checks on, 3 events
+#[kani::proof]
+#[kani::unwind(8)]
+fn d3_totality_small() {
+	let w = World::new(3, 1, false, true, true);
+	run(&w);
+}
+
 /// D4: nesting 2 (best effort)
 #[kani::proof]
 #[kani::unwind(8)]
